@@ -461,6 +461,8 @@ def _safe_interp(e, f, ctx, depth=0):
         return False, "too deep"
     if isinstance(e, ast.Constant):
         return True, "constant"
+    if isinstance(e, ast.Starred):
+        return _safe_interp(e.value, f, ctx, depth + 1)
     if isinstance(e, ast.JoinedStr):
         for v in e.values:
             if isinstance(v, ast.FormattedValue):
